@@ -82,19 +82,34 @@ def plan_steps(spec, plan):
     cur = (np.eye(3), np.zeros(3))
     steps, motions = [], []
     for pl in plan:
+        pre = []
+        for act in pl.get("pre", []):
+            # done before the call without calling the map: the construction reference moved rigidly in place, the
+            # construction target shifted in place, the equivalences read
+            if act["act"] == "ref_inplace":
+                Qa, ta = np.array(act["Q"], dtype=float), np.array(act["t"], dtype=float)
+                pre.append({"act": "ref_inplace", "pos": (ref @ Qa.T + ta).tolist(), "via": act.get("via", "array")})
+                cur = (Qa, ta)
+            elif act["act"] == "tgt_inplace":
+                pre.append({"act": "tgt_inplace", "pos": (np.array(spec["tgt"], dtype=float) + np.array(act["shift"])).tolist()})
+            else:
+                pre.append({"act": "read_eq"})
         if pl["how"] == "object":
-            steps.append({"how": "object"})
+            st = {"how": "object"}
             motions.append(cur)
-            continue
-        Q, t = np.array(pl["Q"], dtype=float), np.array(pl["t"], dtype=float)
-        pos = ref @ Q.T + t
-        if pl.get("pivot") is not None:
-            # rotation about a reference atom: that atom keeps its position exactly (t = p - Q p up to rounding)
-            pos[pl["pivot"]] = ref[pl["pivot"]]
-        steps.append({"how": pl["how"], "pos": pos.tolist()})
-        motions.append((Q, t))
-        if pl["how"] == "inplace":
-            cur = (Q, t)
+        else:
+            Q, t = np.array(pl["Q"], dtype=float), np.array(pl["t"], dtype=float)
+            pos = ref @ Q.T + t
+            if pl.get("pivot") is not None:
+                # rotation about a reference atom: that atom keeps its position exactly (t = p - Q p up to rounding)
+                pos[pl["pivot"]] = ref[pl["pivot"]]
+            st = {"how": pl["how"], "pos": pos.tolist()}
+            motions.append((Q, t))
+            if pl["how"] == "inplace":
+                cur = (Q, t)
+        if pre:
+            st["pre"] = pre
+        steps.append(st)
     return steps, motions
 
 
@@ -121,14 +136,18 @@ def motion_failures(spec, plan):
                 return ["target atom %d has no valid anchor (%s)" % (k, per[k])]
     c0 = res["calls"][0]
     bad = []
+    Q0, t0 = motions[0]
     for i in range(1, len(res["calls"])):
         c = res["calls"][i]
-        Q, t = motions[i]
+        Q = motions[i][0] @ Q0.T                # motion of call i relative to call 0 (identity for call 0 in most plans)
+        t = motions[i][1] - Q @ t0
         # both sides are the molecules RETURNED by the map, held by the caller and read at the end of the sequence
         bad += _pair_failures(spec, nb, per, c0["pos"], c0["out_end"], c["pos"], c["out_end"], Q, t,
                               "call %d of the sequence (%s) vs call 0" % (i, c["how"]))
-    if not np.array_equal(res["tgt_after"], np.array(spec["tgt"], dtype=float)):
+    if not res["tgt_unchanged"]:
         bad.append("the target molecule passed to the constructor was modified by the calls")
+    if not res["eq_stable"]:
+        bad.append("the public equivalences changed between construction and the end of the sequence")
     bad = res["held_problems"][:2] + bad
     return bad[:4]
 
@@ -136,7 +155,10 @@ def motion_failures(spec, plan):
 IDENT = {"Q": np.eye(3).tolist(), "t": [0.0, 0.0, 0.0]}
 C02_PATTERNS = [["copy0", "copy"], ["copy0", "copy"], ["object", "copy", "object"], ["object", "inplace", "object", "copy"],
                 ["copy0", "copy", "object", "inplace", "restore"], ["object", "copy", "copy", "object"],
-                ["copy0", "deepcopy"], ["object", "separate", "deepcopy"]]
+                ["copy0", "deepcopy"], ["object", "separate", "deepcopy"], ["copy0", "separate"], ["object", "separate"],
+                # the construction molecules modified in place before the FIRST call (M reference, T target, E: the
+                # equivalences read): the first call is then made on a moved reference and is the baseline
+                ["inplace", "copy0", "copy"], ["EM:object", "copy", "copy0"], ["T:copy0", "copy"], ["ETM:copy", "object"]]
 
 
 def gen_plan(rs, pattern=None, spec=None):
@@ -144,7 +166,17 @@ def gen_plan(rs, pattern=None, spec=None):
     if pattern is None:
         pattern = C02_PATTERNS[rs.randint(len(C02_PATTERNS))]
     plan = []
-    for how in pattern:
+    for tok in pattern:
+        flags, how = E.split_token(tok)
+        pre = []
+        if "E" in flags:
+            pre.append({"act": "read_eq"})
+        if "M" in flags:
+            Qa, ta = gen_motion(rs)
+            pre.append({"act": "ref_inplace", "Q": Qa.tolist(), "t": ta.tolist(), "via": str(rs.choice(["array", "atoms", "move"]))})
+        if "T" in flags:
+            pre.append({"act": "tgt_inplace", "shift": rs.normal(size=3).tolist()})
+        n_before = len(plan)
         if how == "object":
             plan.append({"how": "object"})
         elif how == "copy0":
@@ -160,6 +192,8 @@ def gen_plan(rs, pattern=None, spec=None):
                 pl["t"] = (p - Q @ p).tolist()
                 pl["pivot"] = a
             plan.append(pl)
+        if pre:
+            plan[n_before]["pre"] = pre
     return plan
 
 
